@@ -175,9 +175,11 @@ def examine(chk, name, start, prods, tags, tier, stats):
         # the production list without repetitions, seed production last
         aut, plist = lr1dump.dump_automaton(parser, "g", False, sym, code, prod_list=allp)
         case.lines += [aut, lr1dump.gram_line(start, uprods, sym),
-                       lr1dump.cert_line(parser, allp, sym), "LRVALID g", "LRTERM g"]
+                       lr1dump.cert_line(parser, allp, sym), "LRVALID g", "LRTERM g",
+                       "GENV" + lr1dump.gen_line(start, uprods, sym)[3:]]
         case.checks.append((4, "valid", None))
         case.checks.append((5, "term", None))
+        case.checks.append((6, "genv", None))
         alphabet = list(oracle.terminals)
         if len(alphabet) <= 3 and "z" not in alphabet:
             alphabet.append("z")          # a token the grammar does not know
@@ -361,6 +363,23 @@ def compare_model(chk, case, answers, stats):
                 "theorem_or_correspondence": "GEN (Lean model of Grammar.parser(), level B) vs the real item "
                                              "sets / tables; the oracle found no failing string",
                 "expected": "identical item sets, state numbering, conflict flag and tables"}, found_input=False)
+        elif kind == "genv":
+            # the model generator's *own* tables and certificate through the compiled validator and
+            # the termination analysis: what theorem C08_gen_valid proves for every grammar (a
+            # failure here is a defect of the model / the theorem's hypotheses, never of emboss)
+            if ans == "genv wf=1 conflicts=0 valid=ok term=1":
+                stats["genv_ok"] = stats.get("genv_ok", 0) + 1
+                continue
+            if ans.startswith("genv ") and "conflicts=1" in ans and "valid=ok" not in ans:
+                continue        # GEN already reported the difference in the conflict flag
+            disagreements += 1
+            if case.bad or too_many(chk):
+                continue
+            chk.violation("correspondence", {
+                "input": case.grammar_text(), "model": ans,
+                "theorem_or_correspondence": "GENV: the output of the Lean generator model `gen G` does not pass "
+                                             "the Lean validator / termination analysis (C08_gen_valid)",
+                "expected": "genv wf=1 conflicts=0 valid=ok term=1"}, found_input=False)
         elif kind == "term":
             # termination analysis (TermOK, theorem C08_terminates): a real loop on a short input
             # would have hit the per-grammar alarm; here the table as a whole is analysed
